@@ -55,8 +55,16 @@ def monitor(row, c):
     # 1. configuration / admin endpoints and contract-to-contract entry points: only the required role
     if row.kind in (sa.K_CONFIG, sa.K_ENTRY) and ok and not sa.holds_role(row, role):
         out.append((key, f"{who} succeeded without holding the required role ({c['call']})"))
-    # 2. acting on behalf: whitelisted contract or the user's non-blacklisted authorisation
-    if row.kind == sa.K_ONBEHALF and ok and role not in (sa.R_AGENT, 10 + sa.P_WL):
+    # 2. acting on behalf: whitelisted contract or the user's non-blacklisted authorisation -- for the user whose
+    #    positions are paid: a position recorded for ANOTHER owner (at any payment index) must make the call fail,
+    #    whatever that other owner authorised
+    if sa.is_foreign(c["variant"]):
+        if ok:
+            k = sa.foreign_k(c["variant"])
+            out.append((f"{c['contract']}:{c['endpoint']}:{sa.ROLE_NAMES[role]}:foreign-owner-payment@{k}",
+                        f"{who} succeeded although payment {k} is a position recorded for another owner "
+                        f"({sa.OTHER_AUTH[sa.foreign_o(c['variant'])]} w.r.t. the agent) ({c['call']})"))
+    elif row.kind == sa.K_ONBEHALF and ok and role not in (sa.R_AGENT, 10 + sa.P_WL):
         out.append((key, f"{who} acted for another user without authorisation ({c['call']})"))
     if row.kind == sa.K_ONBEHALF and row.guard == sa.G_HUB and ok and "deltas" in c:
         caller_gain = sum(v for (a, t), v in c["deltas"].items() if a == c["frm"])
